@@ -167,3 +167,19 @@ Fixpoint buf_run (b : buf) (os : list hop) : buf * list hout :=
   | [] => (b, [])
   | o :: t => let (b1, x) := buf_step b o in let (b2, xs) := buf_run b1 t in (b2, x :: xs)
   end.
+
+(* a handle opened for reading and / or writing: what the mode does not allow fails and changes nothing *)
+Definition abuf_step (rd wr : bool) (b : buf) (o : hop) : buf * hout :=
+  match o with
+  | HWrite d => if wr then (buf_write b d, OBool true) else (b, OBool false)
+  | HReadAll => if rd then let (b', d) := buf_read_all b in (b', OData true d) else (b, OData false [])
+  | HRead n => if rd then let (b', d) := buf_read b n in (b', OData true d) else (b, OData false [])
+  | HSeek off wh => let (b', z) := buf_seek b off wh in (b', OInt z)
+  | HSize => (b, OInt (buf_size b))
+  end.
+
+Fixpoint abuf_run (rd wr : bool) (b : buf) (os : list hop) : buf * list hout :=
+  match os with
+  | [] => (b, [])
+  | o :: t => let (b1, x) := abuf_step rd wr b o in let (b2, xs) := abuf_run rd wr b1 t in (b2, x :: xs)
+  end.
